@@ -68,7 +68,7 @@ CHECKS = {
             "Bounded-exhaustive (all grammars <=3 rules over 2 NT/2 T) plus seeded random/structured families: every reduce point's recorded look-ahead set equals the TLA+ definition; warning iff a default-resolved cell exists.",
             "TLC, the Json module, the harness projection (state number -> item set, symbol id -> name); bounded populations.", "5 C03"),
     "C04": ("model_checking",
-            "TLC: two-candidate cells of recorded tables vs ResolveSR/ResolveRR (LALR.tla); LRDriver.tla over recorded tables vs the spec's resolved table on all inputs up to a bound; trace validation of CLI-generated operator-grammar parsers (5 variants) against the spec's resolved table",
+            "TLC: two-candidate cells of recorded tables vs ResolveSR/ResolveRR (LALR.tla); LRDriver.tla over recorded tables vs the spec's resolved table on all inputs up to a bound; trace validation of CLI-generated operator-grammar parsers (5 variants) against the spec's resolved table; PrecClimb.tla (precedence climbing over the declarations, no LR machinery) as a third reference for tables and real runs on grammars of operator shape",
             "Every two-way conflict cell of every recorded table is checked against the precedence/associativity/default rules; rules whose precedence differs between yacc's and yaccgo's definition, n-way cells and reduce/reduce with both precedences are explicit don't-cares.",
             "Candidate sets are formed from the implementation's own look-aheads (C03 judges those).", "5 C04"),
     "C05": ("model_checking",
